@@ -3,7 +3,14 @@ package pslice
 import (
 	"cmp"
 	"fmt"
+	"hash/adler32"
+	"hash/fnv"
+	"math"
+	"reflect"
 	"testing"
+	"unsafe"
+
+	"verif/elem"
 )
 
 // TestRefSelf validates the reference implementations of this package against
@@ -84,4 +91,104 @@ func TestRefSelf(t *testing.T) {
 	if !embeds([]int{1, 3}, []int{1, 2, 3}, same) || embeds([]int{3, 1}, []int{1, 2, 3}, same) || !embeds(nil, nil, same) || embeds([]int{1, 1}, []int{1}, same) {
 		t.Fatal("embeds is wrong")
 	}
+}
+
+// TestKits validates the element kits of kinds.go: the round trip through
+// every kind, the identities, the codes, the pool, and the shared storage and
+// the checksum collisions of the "words" kind.
+func TestKits(t *testing.T) {
+	vals := []int{-7777, -1000, -7, 0, 1, 11, 12, 99, 100, 279, 9000, 32767}
+	if !testKit(t, intKit(), vals) || !testKit(t, i16Kit(), vals) || !testKit(t, strKit(), vals) || !testKit(t, wideKit(), vals) ||
+		!testKit(t, ptrKit(), vals) || !testKit(t, anyKit(), vals) || !testKit(t, f64Kit(), vals) || !testKit(t, bytesKit(), vals) ||
+		!testKit(t, wordsKit(false), vals) || !testKit(t, wordsKit(true), vals) ||
+		!testKit(t, b8Kit(), []int{sentinel, fillBase, fillBase - 64, elemBase, elemBase + 1, elemBase + b8MaxN - 1}) {
+		return
+	}
+	// f64: the two zeros are == and not the same element; NaN is itself
+	fk := f64Kit()
+	pz, nz := fk.get(0, 0), fk.get(0, 1)
+	if pz != nz || !math.Signbit(nz) || math.Signbit(pz) || fk.strict(pz, nz) || fk.codeOf(pz) != fk.codeOf(nz) || fk.show(nz) != "-0" {
+		t.Fatalf("f64 zeros: %v %v", pz, nz)
+	}
+	if nan := math.NaN(); !fk.strict(nan, nan) || !fk.isNaN(nan) || fk.v(nan) != badV {
+		t.Fatal("f64 NaN")
+	}
+	// ptr / any: equal values with different identities are distinct pointers
+	// to deeply equal pointees
+	pk := ptrKit()
+	a, b := pk.get(5, 0), pk.get(5, 1)
+	if a == b || !reflect.DeepEqual(a, b) || pk.get(5, 0) != a || pk.codeOf(a) == pk.codeOf(b) || pk.show(b) != "5#1" || pk.v(nil) != badV {
+		t.Fatal("ptr kit")
+	}
+	ak := anyKit()
+	x, y := ak.get(5, 0), ak.get(5, 1)
+	if x == y || !reflect.DeepEqual(x, y) || ak.get(5, 0) != x || ak.v(nil) != badV || ak.v(7) != badV {
+		t.Fatal("any kit")
+	}
+	// words: shared storage, and the collision pairs
+	for _, share := range []bool{false, true} {
+		wk := wordsKit(share)
+		s0, s2 := wk.get(3, 0), wk.get(3, 2)
+		if s0 == s2 || s0 != "uiukfp" || s2 != "uiukfp  " || (unsafe.StringData(s0) == unsafe.StringData(s2)) != share {
+			t.Fatalf("words kit (share=%v): %q %q", share, s0, s2)
+		}
+	}
+	sums := []func(string) uint32{
+		func(s string) uint32 { h := fnv.New32a(); h.Write([]byte(s)); return h.Sum32() },
+		func(s string) uint32 { h := fnv.New32(); h.Write([]byte(s)); return h.Sum32() },
+		func(s string) uint32 { return adler32.Checksum([]byte(s)) },
+	}
+	for i := 0; i < len(collisionWords); i += 2 {
+		u, v := collisionWords[i], collisionWords[i+1]
+		if f := sums[i/2%3]; u == v || len(u) != len(v) || f(u) != f(v) {
+			t.Fatalf("%q and %q do not collide", u, v)
+		}
+	}
+	if len(c17Names) > 32 || len(c11Names) > 32 || len(c12SeqNames) > 32 || len(c12LCSNames) > 32 {
+		t.Fatal("more than 32 classes in a label table")
+	}
+	if c11Names[c11Elem] != "elem=int" || c12SeqNames[c12SeqElem] != "elem=int" || c12LCSNames[c12LCSElem] != "elem=int" || c17Names[c17Elem] != "elem=int" {
+		t.Fatal("the elem=<kind> classes do not start where the constants say")
+	}
+}
+
+func testKit[T any](t *testing.T, k *ek[T], vals []int) bool {
+	for _, v := range vals {
+		if !k.fits(v) {
+			continue
+		}
+		for _, id := range []int{0, 1, 63} {
+			x := k.get(v, id)
+			wantID := 0
+			if k.hasID {
+				wantID = id
+			}
+			if k.v(x) != v || k.id(x) != wantID || !k.strict(x, k.get(v, id)) || k.codeOf(x) != k.code(v, wantID) || k.show(x) != showVID(v, wantID) && !(k.kind == elem.F64 && v == 0) {
+				t.Errorf("kit %s: (%d,%d) -> %v -> (%d,%d) code %d show %s", k.kind, v, id, x, k.v(x), k.id(x), k.codeOf(x), k.show(x))
+				return false
+			}
+			if k.hasID && id != 0 && (k.strict(x, k.get(v, 0)) || k.codeOf(x) == k.codeOf(k.get(v, 0))) {
+				t.Errorf("kit %s: the identities %d and 0 of %d are the same element", k.kind, id, v)
+				return false
+			}
+		}
+	}
+	// more than 24 distinct elements: the pool switches to its index
+	for v := 0; v < 60; v++ {
+		if k.fits(elemBase + v) {
+			k.get(elemBase+v, 0)
+		}
+	}
+	for v := 0; v < 60; v++ {
+		if k.fits(elemBase+v) && !k.strict(k.get(elemBase+v, 0), k.get(elemBase+v, 0)) {
+			t.Errorf("kit %s: the pool does not return the element made before", k.kind)
+			return false
+		}
+	}
+	var zero T
+	if k.kind != elem.Int && k.kind != elem.I16 && k.kind != elem.F64 && k.kind != kindB8 && k.v(zero) != badV {
+		t.Errorf("kit %s: the zero value passes for an element", k.kind)
+		return false
+	}
+	return true
 }
